@@ -38,6 +38,15 @@ RecvMaxStreamData(s, v) == /\ v \in 0..MaxLimit /\ limit' = [limit EXCEPT ![s] =
                            /\ UNCHANGED <<written, highest, lost, connLimit, connUsed, maxStreams, opened>>
 RecvMaxStreams(v) == /\ v \in 0..NS /\ maxStreams' = IF v > maxStreams THEN v ELSE maxStreams
                      /\ UNCHANGED <<written, highest, limit, lost, connLimit, connUsed, opened>>
+\* the peer's transport parameters, processed during the handshake.  In a resumed session data may have been sent
+\* before (0-RTT) under the limits remembered from the previous connection (the values of Init); the peer must not
+\* have reduced them (RFC 9000 7.4.1), so the new values can only raise what is in force - for every stream at once
+RecvTransportParams(sl, cl, ms) ==
+  /\ sl \in 0..MaxLimit /\ cl \in 0..MaxLimit /\ ms \in 0..NS
+  /\ limit' = [s \in Streams |-> IF sl > limit[s] THEN sl ELSE limit[s]]
+  /\ connLimit' = IF cl > connLimit THEN cl ELSE connLimit
+  /\ maxStreams' = IF ms > maxStreams THEN ms ELSE maxStreams
+  /\ UNCHANGED <<written, highest, lost, connUsed, opened>>
 \* a STREAM frame with new data: up to the smaller of the stream limit and the remaining connection credit
 EmitNew(s) ==
   LET maxOff == Min(highest[s] + connLimit - connUsed, limit[s])
@@ -57,6 +66,7 @@ Next == \/ \E s \in Streams, n \in 1..MaxLen : AppWrite(s, n)
         \/ \E v \in 0..MaxLimit : RecvMaxData(v)
         \/ \E s \in Streams, v \in 0..MaxLimit : RecvMaxStreamData(s, v)
         \/ \E v \in 0..NS : RecvMaxStreams(v)
+        \/ \E sl \in 0..MaxLimit, cl \in 0..MaxLimit, ms \in 0..NS : RecvTransportParams(sl, cl, ms)
         \/ \E s \in Streams : EmitNew(s) \/ Retransmit(s) \/ \E o \in 0..MaxLen : Lose(s, o)
 Spec == Init /\ [][Next]_vars
 FairSpec == Spec /\ \A s \in Streams : WF_vars(EmitNew(s))
